@@ -766,6 +766,32 @@ func extractAll() {
 		}
 		addBool("eioClientUpgradeSentUnderLock", underLock, rel)
 	}
+	// ---- both Engine.IO sockets report a close to the application (OnClose) before they touch transportMu / close the transport:
+	// the report must not wait for a lock that an upgrade or a request in flight holds, nor for a WebSocket's closing handshake (D34)
+	{
+		first := func(rel, recv string) bool {
+			fd := findFunc(load(rel), recv, "close")
+			if fd == nil {
+				return false
+			}
+			var reportPos, lockPos token.Pos
+			ast.Inspect(fd, func(x ast.Node) bool {
+				if c, ok := x.(*ast.CallExpr); ok {
+					if se, ok := c.Fun.(*ast.SelectorExpr); ok {
+						if se.Sel.Name == "OnClose" && reportPos == token.NoPos {
+							reportPos = c.Pos()
+						}
+						if inner, ok := se.X.(*ast.SelectorExpr); ok && inner.Sel.Name == "transportMu" && lockPos == token.NoPos {
+							lockPos = c.Pos()
+						}
+					}
+				}
+				return true
+			})
+			return reportPos != token.NoPos && (lockPos == token.NoPos || reportPos < lockPos)
+		}
+		addBool("eioCloseReportedFirst", first("engine.io/client_socket.go", "clientSocket") && first("engine.io/server_socket.go", "serverSocket"), "engine.io/client_socket.go")
+	}
 	// ---- Socket.IO packet types
 	{
 		p := "parser/packet.go"
